@@ -63,11 +63,12 @@ class BaseCtx(object):
     def eq(self, label, a, b, when=None, tol=None, scale=None):
         self.claims.append(Claim(label, 'eq', a, b, when, scale, tol))
 
-    def zero(self, label, addends, when=None, tol=None):
+    def zero(self, label, addends, when=None, tol=None, scale_extra=()):
         tot = 0
         for x in addends:
             tot = tot + x
-        self.claims.append(Claim(label, 'eq', tot, 0, when, list(addends), tol))
+        sc = list(addends) + (list(scale_extra) if not self.symbolic else [])
+        self.claims.append(Claim(label, 'eq', tot, 0, when, sc, tol))
 
     def ge(self, label, a, b, when=None, tol=None):
         self.claims.append(Claim(label, 'ge', a, b, when, None, tol))
@@ -211,7 +212,8 @@ class Obligation(object):
     modules = ()
     extra_shim = None
     max_paths = 64
-    timeout_s = 30            # per solver query
+    timeout_s = 30            # per solver query (quick tier)
+    timeout_thorough_s = 300  # per solver query (thorough tier)
     hard_timeout_s = 600      # whole obligation (wall), enforced by the runner
     symbolic_pi = True
     bounds = ''               # text: what is bounded for this obligation
@@ -359,6 +361,8 @@ def decide(ob, tier='quick', seed=0):
 
 
 def _decide(ob, tier, res):
+    if tier == 'thorough':
+        ob.timeout_s = max(ob.timeout_s, ob.timeout_thorough_s)
     mk = _Mk()
     explorer = Explorer(domain=[], max_paths=ob.max_paths)
     # domain needs variable names: run build once lazily -> we collect names as mk is called.
